@@ -137,8 +137,66 @@ func (c *Chan) Entry() (IteratorEntry, bool) {
 	return nil, false
 }
 
+// Iter returns a new iterator over the channel. Each iterator keeps its own
+// current entry, so several goroutines may range over one channel at the same
+// time without observing each other's values.
 func (c *Chan) Iter() Iterator {
-	return c
+	return &ChanIter{c: c}
+}
+
+// ChanIter iterates over the values received from a channel.
+type ChanIter struct {
+	*base
+	c       *Chan
+	current Object
+	count   int64
+}
+
+func (iter *ChanIter) Type() Type {
+	return CHANNEL_ITER
+}
+
+func (iter *ChanIter) Inspect() string {
+	return fmt.Sprintf("chan_iter(%s)", iter.c.Inspect())
+}
+
+func (iter *ChanIter) Interface() interface{} {
+	return nil
+}
+
+func (iter *ChanIter) Equals(other Object) Object {
+	return NewBool(iter == other)
+}
+
+func (iter *ChanIter) RunOperation(opType op.BinaryOpType, right Object) Object {
+	return TypeErrorf("type error: unsupported operation for %s: %v", CHANNEL_ITER, opType)
+}
+
+func (iter *ChanIter) MarshalJSON() ([]byte, error) {
+	return nil, errz.TypeErrorf("type error: unable to marshal %s", CHANNEL_ITER)
+}
+
+func (iter *ChanIter) Next(ctx context.Context) (Object, bool) {
+	select {
+	case <-ctx.Done():
+		iter.current = nil
+		return nil, false
+	case value, ok := <-iter.c.value:
+		if !ok {
+			iter.current = nil
+			return nil, false
+		}
+		iter.current = value
+		iter.count++
+		return value, true
+	}
+}
+
+func (iter *ChanIter) Entry() (IteratorEntry, bool) {
+	if iter.current == nil {
+		return nil, false
+	}
+	return NewEntry(NewInt(iter.count-1), iter.current).WithValueAsPrimary(), true
 }
 
 func (c *Chan) Send(ctx context.Context, value Object) (err error) {
